@@ -18,7 +18,8 @@ pub struct FixedSizeBinaryDeserializer<'a> {
 impl<'a> FixedSizeBinaryDeserializer<'a> {
     pub fn new(path: String, view: FixedSizeBinaryView<'a>) -> Result<Self> {
         let n = usize::try_from(view.n)?;
-        if view.data.len() % n != 0 {
+        // n == 0: only the empty array can be represented, as the view carries no separate length
+        if view.data.len().checked_rem(n).unwrap_or(view.data.len()) != 0 {
             fail!(
                 concat!(
                     "Invalid FixedSizeBinary array: Data of len {len} is not ",
@@ -31,7 +32,7 @@ impl<'a> FixedSizeBinaryDeserializer<'a> {
 
         Ok(Self {
             path,
-            len: view.data.len() / n,
+            len: view.data.len().checked_div(n).unwrap_or(0),
             view,
             n,
         })
